@@ -64,8 +64,47 @@ func init() {
 		}
 		return e.C.App("unixnano!", BV(64), ext), false
 	})
+	reg("time.Until", func(e *Exec, fv *FuncV, args []Value, cc *ssa.CallCommon) (Value, bool) {
+		t := args[0].(*StructV)
+		n := e.now()
+		return e.C.BVSub(t.F[1].(*Term), n), false
+	})
+	reg("time.runtimeNano", func(e *Exec, fv *FuncV, args []Value, cc *ssa.CallCommon) (Value, bool) {
+		return e.now(), false
+	})
 	reg("time.Sleep", func(e *Exec, fv *FuncV, args []Value, cc *ssa.CallCommon) (Value, bool) {
 		return nil, false
+	})
+	// time.After / time.Tick: the channel of a timer / ticker that only the harness can fire
+	chanOf := func(e *Exec, v Value) Value {
+		st := v.(*Pointer).Obj.Val.(*StructV)
+		for _, f := range st.F {
+			if ch, ok := f.(*ChanV); ok {
+				return ch
+			}
+		}
+		e.unsupported("timer without channel")
+		return nil
+	}
+	timerFn := func(e *Exec, name string) *FuncV {
+		for _, pk := range e.P.SSA.AllPackages() {
+			if pk.Pkg.Path() == "time" {
+				return &FuncV{Fn: pk.Func(name)}
+			}
+		}
+		e.unsupported("package time not loaded")
+		return nil
+	}
+	reg("time.After", func(e *Exec, fv *FuncV, args []Value, cc *ssa.CallCommon) (Value, bool) {
+		return chanOf(e, e.newTicker(timerFn(e, "NewTimer"), args[0].(*Term), true)), false
+	})
+	reg("time.Tick", func(e *Exec, fv *FuncV, args []Value, cc *ssa.CallCommon) (Value, bool) {
+		return chanOf(e, e.newTicker(timerFn(e, "NewTicker"), args[0].(*Term), false)), false
+	})
+	reg("time.AfterFunc", func(e *Exec, fv *FuncV, args []Value, cc *ssa.CallCommon) (Value, bool) {
+		// the function runs only if the harness fires the timer: firing AfterFunc timers is not modelled, so the
+		// callback never runs (stated whenever this stub is reached)
+		return e.newTicker(timerFn(e, "NewTimer"), args[0].(*Term), true), false
 	})
 	reg("time.NewTicker", func(e *Exec, fv *FuncV, args []Value, cc *ssa.CallCommon) (Value, bool) {
 		return e.newTicker(fv, args[0].(*Term), false), false
